@@ -363,7 +363,7 @@ func checkC15Det(c DetCase, r *rec.Rec) error {
 
 // numberLikeKeys: object keys that a "natural" (number-aware) ordering
 // compares differently from a plain string ordering.
-var numberLikeKeys = []string{"01", "1e2", "10", "1", "2", "9", "1.5", "0x10", "a1", "a10", "a2", "A1", "-1", "+1", "1_0", "1a", "001"}
+var numberLikeKeys = []string{"01", "1e2", "10", "1", "2", "9", "1.5", "0x10", "a1", "a10", "a2", "A1", "-1", "+1", "1_0", "1a", "001", "a01", "a0a", "a1e", "v01", "v10", "v1a", "x9", "x10", "x1e1"}
 
 // wideObjectPair: objects with more keys than any block size or small-map
 // threshold, a few values changed.
